@@ -113,7 +113,10 @@ func (lg *TokenTransferLog) Append(tr io.Serializable) error {
 	}
 
 	if lg.buf == nil {
-		lg.buf = bytes.NewBuffer(lg.Raw)
+		// Raw can be a value obtained from the storage layer that doesn't copy
+		// it on Get, so it must not be modified in place (neither its counter,
+		// nor its spare capacity).
+		lg.buf = bytes.NewBuffer(slices.Clone(lg.Raw))
 	}
 	if lg.iow == nil {
 		lg.iow = io.NewBinWriterFromIO(lg.buf)
